@@ -106,6 +106,23 @@ theorem C09_dimensionless (R : Registry) :
 theorem C09_join_mu_empty (j m : String) : joinMu j m "" = m := by
   unfold joinMu; simp
 
+/-- the whole unit text is joined to the magnitude: only a leading "1" of a "1 / …" rendering is dropped
+    ("3 / m"), nothing else of the unit text is ever cut — in particular "1/s" (compact, pretty, HTML) stays -/
+theorem C09_join_mu_whole (j m u : String) (hne : u ≠ "") (h : ("1 / ".toList.isPrefixOf u.toList) = false) :
+    joinMu j m u = subst j [m, u] := by
+  unfold joinMu
+  have : (u == "") = false := by simpa using hne
+  simp only [this, h, Bool.false_eq_true, if_false]
+
+theorem C09_join_mu_ratio (j m u : String) (hne : u ≠ "") (h : ("1 / ".toList.isPrefixOf u.toList) = true) :
+    joinMu j m u = subst j [m, String.ofList (u.toList.drop 2)] := by
+  unfold joinMu
+  have : (u == "") = false := by simpa using hne
+  simp only [this, h, Bool.false_eq_true, if_false, if_true]
+
+example : joinMu "{} {}" "3" "1/s" = "3 1/s" ∧ joinMu "{} {}" "3" "1 / second" = "3 / second"
+    ∧ joinMu "{} {}" "3" "meter" = "3 meter" := by decide +kernel
+
 /-! ### the regenerated style tables: every dispatch key of a plain-text / markup formatter has a
     style, styles render as ratios, and the standard renderings come out as documented -/
 
